@@ -473,6 +473,14 @@ class Lib:
                     break
             em.stubs[key] = ('opq_t', ['opq_t'])
             a = [o, '%s((opq_t)(long)%s)' % (key, em.addr(real[0]))]
+        elif m == 'emplace_back' and len(real) > 1 and ti.elem.kind == 'rec':
+            # element constructed in place by one of the record's own constructors
+            ctor = em.find_ctor_by_args(ti.elem.decl, real)
+            if ctor is None:
+                raise Unsupported('emplace_back: no constructor of %s takes these %d arguments' % (ti.elem.c, len(real)))
+            t = em.cur.temp(ti.elem)
+            cn = em.want(ctor)
+            a = [o, '(%s(&%s%s), %s)' % (cn, t, ''.join(', ' + x for x in em.call_args(ctor, real)), t)]
         else:
             a = [o] + [em.e(x) for x in real]
         call = '%s(%s)' % (f, ', '.join(a))
